@@ -133,16 +133,16 @@ def param_classes(kind, params):
     if m is not None:
         cl.append(f"{kind}-m={m}")
     if kind == "de_moor":
-        cl.append(f"de_moor-L={params['lead_time']}")
-        cl.append("de_moor-" + params["issue_policy"])
+        cl.append(f"de_moor-L={params.get('lead_time', 1)}")
+        cl.append("de_moor-" + params.get("issue_policy", "lifo"))
     if kind == "hendrix":
-        trunc = params["max_useful_life"] * (max(params["max_order_quantity_a"], params["max_order_quantity_b"]) + 2)
-        if max(params["demand_poisson_mean_a"], params["demand_poisson_mean_b"]) > trunc / 3:
+        trunc = params.get("max_useful_life", 2) * (max(params.get("max_order_quantity_a", 10), params.get("max_order_quantity_b", 10)) + 2)
+        if max(params.get("demand_poisson_mean_a", 5.0), params.get("demand_poisson_mean_b", 5.0)) > trunc / 3:
             cl.append("hendrix-means-large-vs-order-limits")
-        q = params["substitution_probability"]
+        q = params.get("substitution_probability", 0.5)
         cl.append("hendrix-sub-interior" if 0 < q < 1 else "hendrix-sub-endpoint")
-    if kind == "mirjalili" and any(c != 0 for c in params["useful_life_at_arrival_distribution_c_1"]):
+    if kind == "mirjalili" and any(c != 0 for c in params.get("useful_life_at_arrival_distribution_c_1", (0.0, 0.0))):
         cl.append("mirjalili-c1!=0")
-    if kind == "forest" and params["p"] in (0.0, 1.0):
+    if kind == "forest" and params.get("p", 0.1) in (0.0, 1.0):
         cl.append("forest-p-endpoint")
     return cl
